@@ -24,19 +24,16 @@ Print Assumptions C20f_every_interface_parsed.
    actual by reference through an interface without BIND(C) and a CHARACTER actual goes nowhere else than to a string /
    untyped data parameter; cgsize_t* receives INTEGER(cgsize_t), cgint_f* receives a default INTEGER *)
 Theorem C20f_interfaces_match : forall i, In (AIface i) Gen_C20f.abi_table -> arow_known (AIface i) = false ->
-  a_variadic i = false ->
-  let cn := non_hidden (a_cptys i) in
-  List.length (a_fargs i) = List.length cn /\
-  (a_bindc i = false -> n_fchar (a_fargs i) = n_hidden (a_cptys i)) /\
-  (a_bindc i = true -> n_hidden (a_cptys i) = 0) /\
-  (forall k f v c, nth_error (a_fargs i) k = Some (f, v) -> nth_error cn k = Some c ->
-     arg_compat (a_bindc i) f v c = true /\
-     (c = TFStr -> f = FChar /\ v = false /\ a_bindc i = false) /\
-     (f = FChar -> v = false /\ ((c = TFStr /\ a_bindc i = false) \/ (c = TStr /\ a_bindc i = true) \/ c = TVoidP)) /\
-     (c = TSizeP -> (f = FSize /\ v = false) \/ (f = FCPtr /\ v = true)) /\
-     (c = TFIntP -> f = FInt /\ v = false)).
+  a_variadic i = false -> iface_matches i.
 Proof. exact (fun i => interfaces_match Gen_C20f.abi_table i C20f_abi_table_checked). Qed.
 Print Assumptions C20f_interfaces_match.
+
+(* a wrapper that the module does not declare but DOCUMENTS (commented-out interface body): the C definition takes, position
+   by position, the kinds the documentation tells a caller to pass (iface_matches, as above; no BIND(C): F77 convention) *)
+Theorem C20f_documented_kinds_match : forall i, In (ADoc i) Gen_C20f.abi_table -> arow_known (ADoc i) = false ->
+  iface_matches i /\ a_bindc i = false.
+Proof. exact (fun i => documented_match Gen_C20f.abi_table i C20f_abi_table_checked). Qed.
+Print Assumptions C20f_documented_kinds_match.
 
 (* a wrapper that the module does not declare (F77-style call) is defined under the symbol gfortran generates *)
 Theorem C20f_implicit_symbols : forall n sym p, In (AImplicit n sym p) Gen_C20f.abi_table ->
@@ -82,6 +79,27 @@ Theorem C20f_goto_terminator_old_refuted :
   term_ok term_old = false.
 Proof. exact term_old_refuted. Qed.
 Print Assumptions C20f_goto_terminator_old_refuted.
+
+(* ---- the twenty blocks of the module procedures cg_goto_f / cg_gorel_f *)
+
+(* the executable statements of both procedures, re-extracted from the current cgns_f.F90, are exactly: depth 1 to
+   cg_goto_fc1 resp. cg_gorel_fc1, then for k = 2..20  IF (PRESENT(i_k)) THEN; ier = cg_gorel_fc1(fn, UserDataName_k, i_k);
+   IF (ier /= 0) RETURN; END IF *)
+Theorem C20f_goto_blocks_checked : goto_blocks_ok Gen_C20f.goto_f_stmts Gen_C20f.gorel_f_stmts = true.
+Proof. vm_compute. reflexivity. Qed.
+Print Assumptions C20f_goto_blocks_checked.
+
+(* hence every depth has its block, and no forwarding call pairs UserDataName_k with another depth's index *)
+Theorem C20f_goto_blocks_forward :
+  (forall k, 2 <= k <= 20 -> In (GCall CGorel k k) Gen_C20f.goto_f_stmts /\ In (GCall CGorel k k) Gen_C20f.gorel_f_stmts /\
+                             In (GIfPresent k) Gen_C20f.goto_f_stmts /\ In (GIfPresent k) Gen_C20f.gorel_f_stmts) /\
+  In (GCall CGoto 1 1) Gen_C20f.goto_f_stmts /\ In (GCall CGoto 1 0) Gen_C20f.goto_f_stmts /\
+  In (GCall CGorel 1 1) Gen_C20f.gorel_f_stmts /\ In (GCall CGorel 1 0) Gen_C20f.gorel_f_stmts /\
+  forallb call_forwards_own_pair Gen_C20f.goto_f_stmts = true /\ forallb call_forwards_own_pair Gen_C20f.gorel_f_stmts = true /\
+  List.length (filter (fun s => match s with GCall _ _ _ => true | _ => false end) Gen_C20f.goto_f_stmts) = 21%nat /\
+  List.length (filter (fun s => match s with GCall _ _ _ => true | _ => false end) Gen_C20f.gorel_f_stmts) = 21%nat.
+Proof. exact (blocks_forward Gen_C20f.goto_f_stmts Gen_C20f.gorel_f_stmts C20f_goto_blocks_checked). Qed.
+Print Assumptions C20f_goto_blocks_forward.
 
 (* hypotheses are satisfiable: the table contains interface rows that are not excused *)
 Example C20f_nonvacuous : existsb (fun r => match r with AIface i => andb (negb (arow_known r)) (negb (a_variadic i)) | _ => false end)
